@@ -46,6 +46,9 @@ func mix(z uint64) uint64 {
 	return z ^ (z >> 31)
 }
 
+// Mix64 is the stateless mixing function (safe for concurrent use).
+func Mix64(z uint64) uint64 { return mix(z) }
+
 func NewRand(seed int64, names ...string) *Rand {
 	h := fnv.New64a()
 	for _, n := range names {
@@ -68,10 +71,10 @@ func (r *Rand) Intn(n int) int {
 	}
 	return int(r.Uint64() % uint64(n))
 }
-func (r *Rand) Int63() int64     { return int64(r.Uint64() >> 1) }
-func (r *Rand) Bool() bool       { return r.Uint64()&1 == 1 }
+func (r *Rand) Int63() int64      { return int64(r.Uint64() >> 1) }
+func (r *Rand) Bool() bool        { return r.Uint64()&1 == 1 }
 func (r *Rand) Chance(p int) bool { return r.Intn(100) < p } // p percent
-func (r *Rand) Float64() float64 { return float64(r.Uint64()>>11) / (1 << 53) }
+func (r *Rand) Float64() float64  { return float64(r.Uint64()>>11) / (1 << 53) }
 func (r *Rand) Fork(name string) *Rand {
 	h := fnv.New64a()
 	h.Write([]byte(name))
@@ -234,6 +237,13 @@ func (r *Run) Sample(v any) {
 		r.samples = append(r.samples, v)
 	}
 	r.mu.Unlock()
+}
+
+// SamplesLen returns the samples kept so far (for len()).
+func (r *Run) SamplesLen() []any {
+	r.mu.Lock()
+	defer r.mu.Unlock()
+	return r.samples
 }
 
 // SampleEvery keeps v when the evaluation counter is a multiple of n (spreads samples).
